@@ -189,6 +189,10 @@ impl SubCheck for Ymd {
             obs.label_if(valid && !in_range, "year_out_of_range");
             ensure_eq!(got, None, "from_ymd_opt({y},{m},{d}) denotes no representable date");
         }
+        // the panicking (deprecated) spelling: a date for the same tuples, a panic for the others
+        #[allow(deprecated)]
+        let pan = crate::guard::guard(|| NaiveDate::from_ymd(y, m, d));
+        ensure_eq!(pan.ok(), got, "from_ymd({y},{m},{d}) vs from_ymd_opt (panic <-> None)");
         Ok(())
     }
 }
@@ -210,6 +214,11 @@ impl SubCheck for Yo {
         let in_range = (cal::MIN_YEAR..=cal::MAX_YEAR).contains(&yy);
         let day = cal::day_from_yo(yy, o as i64);
         let got = call("from_yo_opt", || NaiveDate::from_yo_opt(y, o))?;
+        #[allow(deprecated)]
+        {
+            let pan = crate::guard::guard(|| NaiveDate::from_yo(y, o));
+            ensure_eq!(pan.ok(), got, "from_yo({y},{o}) vs from_yo_opt (panic <-> None)");
+        }
         match (day, in_range) {
             (Some(z), true) => {
                 obs.nt("valid");
@@ -248,6 +257,11 @@ impl SubCheck for IsoYwd {
         // ISO years MIN-1 and MAX+1 can still denote dates of the supported calendar years
         let day = if yy >= cal::MIN_YEAR - 1 && yy <= cal::MAX_YEAR + 1 { cal::day_from_isoywd(yy, w as i64, wd as u32) } else { None };
         let got = call("from_isoywd_opt", || NaiveDate::from_isoywd_opt(y, w, WD[wd as usize]))?;
+        #[allow(deprecated)]
+        {
+            let pan = crate::guard::guard(|| NaiveDate::from_isoywd(y, w, WD[wd as usize]));
+            ensure_eq!(pan.ok(), got, "from_isoywd({y},{w},{wd}) vs from_isoywd_opt (panic <-> None)");
+        }
         match day {
             Some(z) if cal::in_range_day(z) => {
                 obs.nt("valid");
@@ -296,6 +310,11 @@ impl SubCheck for Ce {
     fn check(&self, &n: &i32, obs: &mut Obs) -> Result<(), String> {
         let z = n as i64 - cal::CE_SHIFT;
         let got = call("from_num_days_from_ce_opt", || NaiveDate::from_num_days_from_ce_opt(n))?;
+        #[allow(deprecated)]
+        {
+            let pan = crate::guard::guard(|| NaiveDate::from_num_days_from_ce(n));
+            ensure_eq!(pan.ok(), got, "from_num_days_from_ce({n}) vs from_num_days_from_ce_opt (panic <-> None)");
+        }
         if cal::in_range_day(z) {
             obs.nt("valid");
             let g = got.ok_or_else(|| format!("from_num_days_from_ce_opt({n}) = None for an in-range day"))?;
